@@ -400,14 +400,20 @@ def run_scenario(sc, strategy, line_level=False, max_steps=6000):
     def main():
         c = w.make_client()
         c.register_callback(None, nodeStateChange=lambda online, state: s.log(ev='state', online=bool(online), state=state))
-        c.connect()
-        c.txq.name = 'txq'
-        c.pending.name = 'pending'
+        if not sc.get('lazy'):
+            c.connect()
+            c.txq.name = 'txq'
+            c.pending.name = 'pending'
+        # (lazy: nobody connects beforehand - the first requests do, possibly several at the same time)
         orig = c.connect
 
         def connect(*a, **k):
             # queue_request calls self.connect() first: note which callers went through it
             r = orig(*a, **k)
+            if sc.get('lazy'):
+                for q, n in ((c.txq, 'txq'), (c.pending, 'pending')):
+                    if not getattr(q, 'name', None):
+                        q.name = n
             me = s.me()
             if me is not None and me.name in caller_names:
                 passed_by.add(me.name)
